@@ -1,3 +1,111 @@
 import Driver.Common
-/-! Model driver for C04 — not built yet. -/
-def main (_args : List String) : IO Unit := pure ()
+import Logrange.Model.MixTree
+import Logrange.Generated.C04
+/-! Model driver for C04 (multi-partition merge). One self-contained request per line (batch mode):
+
+* `mix <tree> | <op>*`      — run the operations on an explicitly given tree of mixers
+* `cur <k> <leaf>{k} | <op>*` — build the iterator the way `newCursor` does (in-place pairwise reduction) from the
+                               `k` sources in the given (map iteration) order, then run the operations
+* `spec.merge <0|1> <leafrecs> | <leafrecs>` — SPEC: `mergeSpec bk xs ys` on two event lists given as leaves
+* `gj <maxLimit> <n>`       — `GetJournals` over `n` matching partitions: `ok <n>` / `err`, then `held=<sum of readers>`
+* `limit`                   — the regenerated merge limit of `newCursor`
+
+`<tree>` is prefix notation: `M <tree> <tree>` | `<leaf>`; `<leaf>` is `L <tags> <n> <ts>:<msg>{n}`.
+`<op>`: `g` Get, `n` Next, `r` Release, `b1`/`b0` SetBackward(true/false), `d` drain (Get/Next until EOF).
+Answer: one token per op — `g`: `<ts>:<msg>:<tags>` or `eof`, followed (when the root is a mixer) by
+`/<st><eof1><eof2>`; `n`,`r`,`b*`: `.` plus the same suffix; `d`: the events joined by `,` (or `-`) . -/
+open Go Logrange.Mixer Logrange.MixTree Driver
+
+def parseRec (s : String) : Rec :=
+  match s.splitOn ":" with
+  | [t, m] => ⟨t.toInt?.getD 0, m.toNat?.getD 0⟩
+  | _ => ⟨0, 0⟩
+
+def parseLeaf : List String → Option (Leaf × List String)
+  | "L" :: tags :: n :: rest =>
+    let k := n.toNat?.getD 0
+    if rest.length < k then none else
+    some ({ tags := tags.toNat?.getD 0, les := (rest.take k).map parseRec }, rest.drop k)
+  | _ => none
+
+def parseTree : Nat → List String → Option (It Leaf × List String)
+  | 0, _ => none
+  | fuel+1, "M" :: rest =>
+    match parseTree fuel rest with
+    | some (a, r1) => match parseTree fuel r1 with
+      | some (b, r2) => some (It.init a b, r2)
+      | none => none
+    | none => none
+  | _, toks => (parseLeaf toks).map (fun (l, r) => (It.leaf l, r))
+
+def parseLeaves : Nat → List String → Option (List Leaf × List String)
+  | 0, r => some ([], r)
+  | k+1, toks => match parseLeaf toks with
+    | some (l, r) => (parseLeaves k r).map (fun (ls, r') => (l :: ls, r'))
+    | none => none
+
+def showEv (e : Ev) : String := s!"{e.ts}:{e.msg}:{e.tags}"
+
+def b01 (b : Bool) : String := if b then "1" else "0"
+
+def suffix : It Leaf → String
+  | .leaf _ => ""
+  | .mix m _ _ => s!"/{m.st}{b01 m.eof1}{b01 m.eof2}"
+
+def drainAll : Nat → It Leaf → It Leaf × List Ev
+  | 0, it => (it, [])
+  | f+1, it =>
+    match it.get with
+    | (it', some e) => let (it'', es) := drainAll f it'.next; (it'', e :: es)
+    | (it', none) => (it', [])
+
+def totalRecs : It Leaf → Nat
+  | .leaf l => l.les.length
+  | .mix _ a b => totalRecs a + totalRecs b
+
+def runOps (it : It Leaf) : List String → List String
+  | [] => []
+  | "g" :: ops => let (it', r) := it.get
+    ((match r with | some e => showEv e | none => "eof") ++ suffix it') :: runOps it' ops
+  | "n" :: ops => let it' := it.next; ("." ++ suffix it') :: runOps it' ops
+  | "r" :: ops => let it' := it.release; ("." ++ suffix it') :: runOps it' ops
+  | "b1" :: ops => let it' := it.setBackward true; ("." ++ suffix it') :: runOps it' ops
+  | "b0" :: ops => let it' := it.setBackward false; ("." ++ suffix it') :: runOps it' ops
+  | "d" :: ops => let (it', es) := drainAll (totalRecs it + 2) it
+    ((if es.isEmpty then "-" else ",".intercalate (es.map showEv)) ++ suffix it') :: runOps it' ops
+  | _ :: ops => "bad-op" :: runOps it ops
+
+def afterBar (toks : List String) : List String := (toks.dropWhile (· ≠ "|")).drop 1
+def beforeBar (toks : List String) : List String := toks.takeWhile (· ≠ "|")
+
+def leafEvents (l : Leaf) : List Ev := l.les.map l.ev
+
+def step (_ : Unit) (toks : List String) : Unit × String :=
+  match toks with
+  | "mix" :: rest =>
+    match parseTree 1000 (beforeBar rest) with
+    | some (it, []) => ((), " ".intercalate (runOps it (afterBar rest)))
+    | _ => ((), "bad-tree")
+  | "cur" :: k :: rest =>
+    match parseLeaves (k.toNat?.getD 0) (beforeBar rest) with
+    | some (ls, []) =>
+      (match build ls with
+       | some it => ((), " ".intercalate (runOps it (afterBar rest)))
+       | none => ((), "nosources"))
+    | _ => ((), "bad-leaves")
+  | "spec.merge" :: bk :: rest =>
+    match parseLeaf (beforeBar rest), parseLeaf (afterBar rest) with
+    | some (a, []), some (b, []) =>
+      let es := mergeSpec (bk == "1") (leafEvents a) (leafEvents b)
+      ((), if es.isEmpty then "-" else ",".intercalate (es.map showEv))
+    | _, _ => ((), "bad-leaves")
+  | ["gj", lim, n] =>
+    let k := n.toNat?.getD 0
+    let parts := (List.range k).map (fun i => (⟨i, i⟩ : Part))
+    let (rd, r) := getJournals (lim.toNat?.getD 0) parts (fun _ => 0)
+    let held := ((List.range k).map rd).foldl (· + ·) 0
+    ((), (match r with | some res => s!"ok {res.length}" | none => "err") ++ s!" held={held}")
+  | ["limit"] => ((), s!"{Logrange.Generated.C04.mergeLimit}")
+  | _ => ((), "bad-op")
+
+def main (args : List String) : IO Unit := Driver.run step () args
